@@ -201,9 +201,10 @@ def gen_request(cs, templates, kind=None, allow_slow=False, fail=None, neighbour
     if neighbour_of is not None:
         # same configuration family, exactly one more parameter moved: the pairs that expose incomplete memo keys
         ti = neighbour_of['template']
-        if templates[ti]['kind'] == 'geo' and cs.choose(4, 'ntable') == 3:
-            a = cs.choose(len(HW.GEO_TWEAKS), 'tweak')
-            tw = (HW.GEO_TWEAKS[a][0], HW.GEO_TWEAKS[a][1][cs.choose(len(HW.GEO_TWEAKS[a][1]), 'tweakv')])
+        if cs.choose(4, 'ntable') == 3 or (templates[ti]['kind'] == 'hip' and cs.choose(2, 'ntable2') == 1):
+            tab_ = HW.GEO_TWEAKS if templates[ti]['kind'] == 'geo' else HW.HIP_TWEAKS
+            a = cs.choose(len(tab_), 'tweak')
+            tw = (tab_[a][0], tab_[a][1][cs.choose(len(tab_[a][1]), 'tweakv')])
         else:
             tw = HW.neighbour_tweak(cs, templates[ti], _state.get('ranges', {}))
         tweaks = [x for x in neighbour_of['tweaks'] if tw is None or x[0] != tw[0]] + ([tw] if tw else [])
@@ -242,7 +243,7 @@ def request_text(req, templates):
     return s
 
 
-THEMES = ['mixed', 'cache', 'paths', 'mixed', 'faults', 'cache']
+THEMES = ['mixed', 'cache', 'paths', 'mixed', 'faults', 'cache', 'hip']
 
 
 def gen_history(cs, templates, tier, force=None):
@@ -264,6 +265,13 @@ def gen_history(cs, templates, tier, force=None):
         c0 = [0, 2][cs.choose(2, 'cacheclient')]
         client_tab = [c0] * 6 + [1, 2 - c0]
         p_neighbour = 3      # of 4
+    elif theme == 'hip':
+        # HIP-RA-X requests one after another (and the odd GEOPHIRES one): purity of the second simulator
+        kinds = ['run'] * 5 + ['rewrite'] * 5 + ['chdir', 'clock', 'delete']
+        entries = ['hip'] * 6 + ['client', 'cli']
+        slot_tab = [0, 0, 0, 1]
+        client_tab = [0, 1]
+        p_neighbour = 3
     elif theme == 'paths':
         kinds = ['run'] * 6 + ['chdir'] * 3 + ['rewrite', 'argv', 'delete']
         entries = ['cli'] * 5 + ['main_argv', 'client', 'hip']
@@ -315,7 +323,9 @@ def gen_history(cs, templates, tier, force=None):
                 req = gen_request(cs, templates, slots[sl]['kind'], allow_slow)
             slots[sl]['req'] = req
             ops.append({'op': 'write', 'slot': sl, 'req': req, 'kind': slots[sl]['kind']})
-            if slots[sl]['kind'] == 'geo' and (theme == 'cache' or cs.choose(2, 'rerun') == 1):
+            if slots[sl]['kind'] == 'hip' and theme == 'hip':
+                mk_run('hip', sl)
+            elif slots[sl]['kind'] == 'geo' and (theme == 'cache' or cs.choose(2, 'rerun') == 1):
                 # run the rewritten file again straight away (the interesting case for caches)
                 mk_run('client' if theme != 'paths' else 'cli', sl)
         elif kind == 'chdir':
